@@ -237,7 +237,7 @@ CHECKS = {
                   'TCPHiddenServiceEndpoint (fake reactor, simulated Tor), plus all invalid option combinations',
         text='19 valid configurations (ephemeral x version None/2/3 x supplied key x single-hop; ephemeral basic-auth; filesystem x '
              'version x explicit / implicit directory) x {constructor, Tor.create_*_endpoint} x {config object, Deferred} x every '
-             'fault path with <= 1 (quick) / 2 (thorough) deviations over {config Deferred fails, config of the wrong type, local '
+             'fault path with <= 2 (quick) / 3 (thorough) deviations over {config Deferred fails, config of the wrong type, local '
              'bind raises CannotListenError, creating command 5xx, connection lost, every upload FAILED}; 12 invalid combinations '
              'via the constructor and the onion: string parser. Oracle: one listenTCP(0, interface=127.0.0.1); ADD_ONION Port= / '
              'HiddenServicePort maps the public port to exactly that local port; listen() unfired before the reply and before '
@@ -249,7 +249,7 @@ CHECKS = {
         technique='enumeration of every causally consistent linearisation of the launch environment events (stdout, stderr, '
                   'control connection, acknowledgements, bootstrap events, timeout, process end) on the real controller.launch() '
                   'with a fake reactor, a real TorControlProtocol and a simulated Tor',
-        text='11 (quick) / 32 (thorough) parameter sets - stdout marker whole, split at 4 / all 23 offsets, or absent; control '
+        text='32 (quick) / 34 (thorough) parameter sets - stdout marker whole, split at every one of the 23 offsets, or absent; control '
              'connection established or refused; TAKEOWNERSHIP acknowledged or rejected; exit code 0 / 1 / signal; temporary or '
              'caller-supplied data directory; kill_on_stderr - x every linearisation of {stdout, stderr, connect, '
              'authentication+bootstrap+SETEVENTS, TAKEOWNERSHIP answer, RESETCONF answer, BOOTSTRAP 50 / 100 / 100 again, timeout, '
